@@ -405,8 +405,27 @@ def campaign(draw, mixes=MIXES, boom: bool = False, deep: bool = False):
                 steps.append(["fault", draw(st.integers(1, 8))])
     for _ in range(draw(st.integers(0, 12))):   # drain
         steps.append(["tick"])
+    # second act: the same method (or one set while stopped) is run again after Stop + Start or Restart, so that an error of the
+    # first run is followed by an error in a later run of the same engine
+    second_act = None
+    if mix in ("broken", "mixed", "fixable", "joint", "odd") and draw(st.integers(0, 3)) == 0:
+        second_act = draw(st.sampled_from(["stop-start", "stop-start", "stop-edit-start", "restart"]))
+        if second_act == "restart":
+            steps.append(["user", "Restart"])
+        else:
+            steps.append(["user", "Stop"])
+            steps.extend([["tick"]] * 3)
+            if second_act == "stop-edit-start":
+                steps.append(["edit", {"op": draw(st.sampled_from(["append", "insert"])), "pos": draw(st.integers(0, 30)),
+                                       "text": draw(st.sampled_from(["Mark: ms1", "Wait: 0.2s", "Zork: 999", ""]))}])
+            steps.append(["user", "Start"])
+        for _ in range(draw(st.integers(12, 30))):
+            steps.append(["tick"])
+        if draw(st.booleans()):
+            steps.append(["user", "toggle-pause"])
+            steps.extend([["tick"]] * draw(st.integers(2, 6)))
     epilogue = draw(st.sampled_from(["fix", "fix", "fix", "stop"] if mix == "fixable" else ["stop", "stop", "fix", "none"]))
-    return {"method": lines, "steps": steps, "epilogue": epilogue, "mix": mix, "autostart": draw(st.integers(0, 11)) > 0,
+    return {"method": lines, "steps": steps, "epilogue": epilogue, "mix": mix, "second_act": second_act, "autostart": draw(st.integers(0, 11)) > 0,
             "inputs": {"In1": float(draw(st.sampled_from([0, 2, 5]))), "In2": float(draw(st.sampled_from([0, 2, 5]))),
                        "Temp": float(draw(st.sampled_from([0, 2, 5])))}}
 
